@@ -298,6 +298,13 @@ func main() {
 				}
 			}
 		}
+		// a field named together with TWO of its own parts, in every order (a normalisation that looks at neighbours
+		// only gets pairs right)
+		for _, tr := range [][3]string{{"default_foreign_message", "default_foreign_message.c", "default_foreign_message.d"}, {"default_nested_message", "default_nested_message.a", "default_nested_message.corecursive"}} {
+			for _, o := range [][3]int{{0, 1, 2}, {0, 2, 1}, {1, 0, 2}, {1, 2, 0}, {2, 0, 1}, {2, 1, 0}} {
+				ms = append(ms, mcase{Paths: []string{tr[o[0]], tr[o[1]], tr[o[2]]}})
+			}
+		}
 		ms = append(ms, mcase{Paths: []string{"default_int32", "default_int32"}})
 		for _, c := range corrupt() {
 			ms = append(ms, mcase{Paths: c, Bad: true})
